@@ -43,12 +43,13 @@ def run(ctx, env):
         # scope data variants: every variant of ScopeDataField is emitted
         adt = prog.adts.get(V9 + "ScopeDataField")
         if adt:
-            em = set(c[-1][1].split(".")[0] for (lp, cd, c) in flat if c[0] == "bytes" and c[-1][0] == V9 + "ScopeDataField")
+            em = set(x.split(".")[0] for (lp, cd, c) in flat if c[0] == "bytes" and c[-1][0] == V9 + "ScopeDataField" for x in c[-1][1].split("|"))
             for v in adt["variants"]:
                 ctx.ob("R9.1", V9 + "ScopeDataField", "variant-emitted:%s" % v["name"], v["name"] in em, "scope data variant %s payload %s" % (v["name"], "emitted" if v["name"] in em else "never written"))
         # R9.3: data values
         encs = [(i, lp, cd, c) for i, (lp, cd, c) in enumerate(flat) if c[0] == "enc"]
-        ok = len(encs) == 1 and encs[0][3][2].endswith("FieldValue::to_be_bytes") and len(encs[0][1]) == 3 and any(v == "Data" for (p, v) in encs[0][2])
+        owners = [ex._loop_owner.get(x, (None, None)) for x in (encs[0][1] if encs else ())]
+        ok = len(encs) == 1 and encs[0][3][2].endswith("FieldValue::to_be_bytes") and (V9 + "Data", "fields") in owners and any(v == "Data" for (p, v) in encs[0][2])
         ctx.ob("R9.3", V9 + "V9::to_be_bytes", "values-by-record-then-field", ok, "value emissions: %s" % [(e[1], e[3][1]) for e in encs])
         pads = [i for i, (lp, cd, c) in enumerate(flat) if c[0] == "bytes" and c[-1] == (V9 + "Data", "padding")]
         ctx.ob("R9.3", V9 + "V9::to_be_bytes", "padding-after-values", bool(pads) and bool(encs) and pads[0] > encs[0][0], "Data.padding emitted at position %s, values at %s" % (pads, [e[0] for e in encs]))
